@@ -194,6 +194,33 @@ def run(ctx):
             ctx.ob("R02.1", "dictionary|%s|inplace-flag" % frm.replace(" ", "_"), ft == 1, "src/interrogate/interfaceMakerPythonNative.cxx:%d" % g["line"],
                    "%s -> %s has function_type %s (1 = in-place)" % (frm, to, ft))
 
+    # ------------------------------------------------------------ R02.3
+    ctx.rule("R02.3", "an `explicit` constructor is never made a coercion (implicit conversion) candidate: every site that marks or counts coercion constructors is behind `!(storage_class & SC_explicit)`")
+    not_explicit = G.bits_clear("_storage_class", "SC_explicit")
+    n_sites = 0
+    for f in db.functions:
+        if "/interrogate/" not in f.file:
+            continue
+        for n in f.walk():
+            if n.get("k") == "bin" and n.get("op") == "|=" and any(x.get("k") == "ref" and x.get("n", "").endswith("F_coerce_constructor") and x.get("en", "").startswith("FunctionRemap") for x in walk(n["y"])):
+                if (field_of(n["x"]) or "").startswith("FunctionRemap::"):
+                    from .C14 import _enclosing_case
+                    arm = _enclosing_case(db, f, n) or ""
+                    if "T_constructor" not in arm:
+                        ctx.info("R02.3 not a constructor site (arm %s): %s" % (arm or "none", f.loc(n)))
+                        continue   # e.g. a static make() factory: `explicit` does not apply
+                    n_sites += 1
+                    ok = G.gated(f, n, G.edges_where(f, not_explicit))
+                    ctx.ob("R02.3", "%s|marks-coerce-constructor" % f.name, ok, f.loc(n), "F_coerce_constructor is set %s a test that the constructor is not `explicit`" % ("behind" if ok else "WITHOUT"))
+    hc = db.fn("InterfaceMakerPythonNative::has_coerce_constructor")
+    rets = [r for r in hc.walk() if r.get("k") == "ret" and const_int(r.get("e")) not in (0, None)]
+    e = G.edges_where(hc, not_explicit)
+    for i, r in enumerate(rets):
+        n_sites += 1
+        ok = G.gated(hc, r, e)
+        ctx.ob("R02.3", "has_coerce_constructor|return#%d" % i, ok, hc.loc(r), "`return %s` (a coercion candidate exists) is %s the explicit test" % (show(r.get("e")), "behind" if ok else "NOT behind"))
+    ctx.floor("R02.3", "coercion-candidate sites", n_sites, 3)
+
     # ------------------------------------------------------------ R02.2
     kwg = db.globals.get("pythonKeywords")
     if kwg is None or not kwg.get("init"):
